@@ -6,7 +6,7 @@ from uplc_checks import cj, write_cfg
 
 ITEMS = [{"kind": "fn", "name": "item1"}, {"kind": "fn", "name": "item2"}, {"kind": "fn", "name": "item3"}, {"kind": "fn", "name": "item4"},
          {"kind": "validator", "name": "item5"}, {"kind": "fn", "name": "item6"}, {"kind": "fn", "name": "item7"}, {"kind": "fn", "name": "item8"},
-         {"kind": "fn", "name": "item9"}, {"kind": "fn", "name": "item10"}, {"kind": "fn", "name": "item11"}, {"kind": "fn", "name": "item12"}, {"kind": "fn", "name": "item13"}]
+         {"kind": "fn", "name": "item9"}, {"kind": "fn", "name": "item10"}, {"kind": "fn", "name": "item11"}, {"kind": "fn", "name": "item12"}, {"kind": "fn", "name": "item13"}, {"kind": "fn", "name": "item14"}]
 
 
 def c09(tier):
@@ -14,7 +14,7 @@ def c09(tier):
     rep = vlib.Reporter("C09")
     src = open(os.path.join(vlib.ROOT, "corpus", "c09_module.ak")).read()
     h = 3
-    cfg = write_cfg("CodeGenReuse", {"NItems": 13, "H": h}, ["HistoryIndependent", "CountersReset", "Emit"])
+    cfg = write_cfg("CodeGenReuse", {"NItems": 14, "H": h}, ["HistoryIndependent", "CountersReset", "Emit"])
     r = vlib.tlc("CodeGenReuse", cfg=cfg, workers=6, timeout=2400, xmx="8g", metaname="CodeGenReuse")
     if not r.ok:
         raise vlib.ToolError("CodeGenReuse failed (a violated invariant is a flaw of the reuse DESIGN): %s\n%s" % (r.error, r.out[-1200:]))
@@ -60,7 +60,10 @@ def c09(tier):
                                            % (len(mod) * 7 + len(msg), msg, msg))
     extra["lib/shared/lib.ak"] = ("use aiken/builtin\n\nfn weigh(bs: ByteArray) -> Int {\n  builtin.length_of_bytearray(bs)\n}\n\nfn total(xs: List<ByteArray>) -> Int {\n  when xs is {\n    [] -> 0\n    [x, ..rest] -> weigh(x) + total(rest)\n  }\n}\n\n"
                                   "pub fn ping(n: Int, xs: List<ByteArray>) -> Int {\n  if n <= 0 {\n    total(xs) + weigh(#\"00\")\n  } else {\n    pong(n - 1, xs) + weigh(#\"0102\")\n  }\n}\n\n"
-                                  "pub fn pong(n: Int, xs: List<ByteArray>) -> Int {\n  if n <= 0 {\n    weigh(#\"03\") - total(xs)\n  } else {\n    ping(n - 1, xs) + total([#\"04\"])\n  }\n}\n")
+                                  "pub fn pong(n: Int, xs: List<ByteArray>) -> Int {\n  if n <= 0 {\n    weigh(#\"03\") - total(xs)\n  } else {\n    ping(n - 1, xs) + total([#\"04\"]) + tick(n, 0)\n  }\n}\n\n"
+                                  "fn stretch(n: Int, k: Int) -> Int {\n  if n > k {\n    n * 2 + k\n  } else {\n    k * 2 + n\n  }\n}\n\nfn squash(n: Int, k: Int) -> Int {\n  if n < k {\n    n - 3 * k\n  } else {\n    k - 3 * n\n  }\n}\n\n"
+                                  "fn tick(n: Int, acc: Int) -> Int {\n  if n <= 0 {\n    acc\n  } else {\n    tock(n - 1, stretch(acc, n) + stretch(n, acc))\n  }\n}\n\n"
+                                  "fn tock(n: Int, acc: Int) -> Int {\n  if n <= 0 {\n    acc\n  } else {\n    tick(n - 1, squash(acc, n) + squash(n, acc))\n  }\n}\n")
     # public types of library modules (exported with --include-all-types): pairs alone and inside lists, in different modules
     extra["lib/shared/pairs_a.ak"] = "pub type Entry {\n  key: Pair<ByteArray, Int>,\n  note: ByteArray,\n}\n"
     extra["lib/shared/pairs_b.ak"] = "pub type Ledger {\n  rows: List<Pair<ByteArray, Int>>,\n  total: Int,\n}\n"
